@@ -25,6 +25,8 @@ pub enum RSrc {
     ConstSeed(u8),
     /// explicit randomizer through the (deprecated) randomizer-passing entry points
     Explicit(String),
+    /// a seed of another length handed to both sides (the seed is an opaque byte string): 0, 1, 31, 33, 100
+    RawSeed(usize),
 }
 
 #[derive(Serialize, Deserialize, Clone, Debug)]
@@ -62,7 +64,7 @@ impl Prop for C17 {
     fn cases(&self, tier: Tier, seed: u64) -> Vec<Value> {
         let mut out = vec![];
         let nmax = tier.pick(5u16, 7u16);
-        let mut rs = vec![RSrc::Seeded("a".into()), RSrc::Seeded("b".into()), RSrc::ConstSeed(0), RSrc::ConstSeed(0xff), RSrc::Explicit("0".into()), RSrc::Explicit("1".into()), RSrc::Explicit("q-1".into())];
+        let mut rs = vec![RSrc::RawSeed(0), RSrc::RawSeed(1), RSrc::RawSeed(31), RSrc::RawSeed(33), RSrc::RawSeed(100), RSrc::Seeded("a".into()), RSrc::Seeded("b".into()), RSrc::ConstSeed(0), RSrc::ConstSeed(0xff), RSrc::Explicit("0".into()), RSrc::Explicit("1".into()), RSrc::Explicit("q-1".into())];
         if tier == Tier::Thorough {
             rs.push(RSrc::Seeded("c".into()));
             rs.push(RSrc::Explicit("seeded".into()));
@@ -157,6 +159,11 @@ fn make_params<C: Suite>(rsrc: &RSrc, vk: &fc::VerifyingKey<C>, comms: &BTreeMap
             let mut rng = ScriptedRng::new(crate::rng::Script::Const(*b));
             let (p, s) = RandomizedParams::<C>::new_from_commitments(vk, comms, &mut rng).map_err(e2s("new_from_commitments"))?;
             Ok(RR { params: p, seed: Some(s) })
+        }
+        RSrc::RawSeed(len) => {
+            let seed = crate::rng::stream_bytes(&format!("rawseed:{label}"), *len);
+            let params = RandomizedParams::<C>::regenerate_from_seed_and_commitments(vk, &seed, comms).map_err(e2s("regenerate_from_seed_and_commitments"))?;
+            Ok(RR { params, seed: Some(seed) })
         }
         RSrc::Explicit(w) => {
             let r = match w.as_str() {
@@ -278,7 +285,7 @@ fn run_case<C: Suite>(c: &Case) -> Outcome {
                 if r != want {
                     o.fail(format!("{tag}/randomizer-not-hash-of-seed-and-commitments"), format!("{ctx}: randomizer {} != H(seed || commitment list) {}", hex::encode(&r), hex::encode(&want)));
                 }
-                if sd.len() != sc_bytes::<C>(&zero::<C>()).len() {
+                if !matches!(rsrc, RSrc::RawSeed(_)) && sd.len() != sc_bytes::<C>(&zero::<C>()).len() {
                     o.fail(format!("{tag}/seed-length"), format!("{ctx}: {}", sd.len()));
                 }
             }
@@ -555,6 +562,34 @@ fn run_case<C: Suite>(c: &Case) -> Outcome {
             let pkg2 = pkg.clone();
             let agg = move |sh: &BTreeMap<Id<C>, SignatureShare<C>>, cd: CheaterDetection| C::w_rr_aggregate_custom(&pkg2, sh, &pkp, cd, &params);
             super::c04::check_modes::<C>(&mut o, &tag, &ctx, &s, &honest, &errs, &agg, &bad, rr.params.randomized_verifying_key(), &m);
+            // the mode-less re-randomized aggregate() behaves like FirstCheater, as the plain one does
+            {
+                let mut total = zero::<C>();
+                for e in &errs {
+                    total = total + *e;
+                }
+                let mut wrong: Vec<Id<C>> = s.iter().zip(&errs).filter(|(_, e)| **e != zero::<C>()).map(|(i, _)| *i).collect();
+                sort_ids_numeric::<C>(&mut wrong);
+                match C::w_rr_aggregate(&pkg, &bad, &grp.pkp, &rr.params) {
+                    Ok(sig) => {
+                        if total != zero::<C>() {
+                            o.fail(format!("{tag}/released-despite-wrong-shares"), format!("{ctx}: aggregate()"));
+                        } else if sig != honest {
+                            o.fail(format!("{tag}/aggregate-modes-differ"), format!("{ctx}: aggregate()"));
+                        }
+                    }
+                    Err(e) => {
+                        let got = culprit_set::<C>(&e);
+                        if total == zero::<C>() {
+                            o.fail(format!("{tag}/rejected-valid-sum"), format!("{ctx}: aggregate(): {e:?}"));
+                        } else if got != vec![id_hex::<C>(&wrong[0])] {
+                            o.fail(format!("{tag}/first-cheater-wrong"), format!("{ctx}: the mode-less re-randomized aggregate() named {got:?}, expected exactly the numerically lowest wrong signer {}", id_short::<C>(&wrong[0])));
+                        } else {
+                            o.count("culprits_checked", 1);
+                        }
+                    }
+                }
+            }
         }
         Case::Large { n, signers, seed, .. } => {
             let grp = match make_group::<C>(KeySrc::Dealer, *n, 2, IdKind::Seq, seed) {
